@@ -151,6 +151,7 @@ pub enum CapSpec {
     Query(usize),
 }
 
+#[derive(Clone)]
 pub struct EHistCfg {
     pub enc: &'static Encoding,
     pub source: Source,
@@ -289,8 +290,36 @@ impl<'a> EHist<'a> {
     }
 }
 
+pub fn overridden(cfg: &EHistCfg) -> EHistCfg {
+    let o = ov();
+    let mut c = cfg.clone();
+    if let Some(x) = o.repl {
+        c.repl = x;
+    }
+    if o.twins {
+        c.twins = true;
+    }
+    c
+}
+pub fn cap_override(repl: bool, c: CapSpec) -> CapSpec {
+    let m = if repl { 14 } else { 4 };
+    match ov().cap.as_deref() {
+        Some("min") => CapSpec::Fixed(m),
+        Some("min1") => CapSpec::Fixed(m + 1),
+        Some("query") => CapSpec::Query(0),
+        _ => c,
+    }
+}
+
 /// documented caller loop; chunk_items = item indices where chunks end
 pub fn run_chunked(sh: &mut Shards, cfg: &EHistCfg, items: &[u32], chunk_items: &[usize], caps: &mut dyn FnMut(usize) -> CapSpec, empty_last: bool) {
+    if thinned() {
+        return;
+    }
+    let cfg = &overridden(cfg);
+    let repl = cfg.repl;
+    let caps0 = caps;
+    let mut caps = |i: usize| cap_override(repl, caps0(i));
     let text = prepare(items, cfg.source);
     let mut h = EHist::begin(sh, cfg, true);
     let total = *text.bounds.last().unwrap();
@@ -337,6 +366,10 @@ pub fn run_chunked(sh: &mut Shards, cfg: &EHistCfg, items: &[u32], chunk_items: 
 
 /// random driver: arbitrary re-cuts on item boundaries, capacities, queries
 pub fn run_random(sh: &mut Shards, cfg: &EHistCfg, items: &[u32], rng: &mut Rng, maxchunk: usize, capmax: usize) {
+    if thinned() {
+        return;
+    }
+    let cfg = &overridden(cfg);
     let text = prepare(items, cfg.source);
     let mut h = EHist::begin(sh, cfg, false);
     let total = *text.bounds.last().unwrap();
@@ -365,6 +398,7 @@ pub fn run_random(sh: &mut Shards, cfg: &EHistCfg, items: &[u32], rng: &mut Rng,
             2 => CapSpec::Fixed(minc + capmax + 64),
             _ => CapSpec::Fixed(minc + rng.below(capmax + 1)),
         };
+        let c = cap_override(cfg.repl, c);
         let o = h.step(sh, &text, end, c, last);
         if last {
             eos = true;
